@@ -78,7 +78,7 @@ def _facade(spec):
 
     def cb2(s):
         calls.append((2, len(s), s.nfev, cnt["f"], float(s.t[-1])))
-        at_output = float(s.t[-1]) in tev
+        at_output = any(abs(float(s.t[-1]) - e_) <= 64 * 2.3e-16 * max(1.0, abs(e_)) for e_ in tev)     # (a call lands on its target to rounding)
         if at_output or len(s) % 3 == 0:
             # magnitudes cycle over fractions of the initial step (a geometric halving would never reach the target with a fixed-step method)
             mag = (L / 16.0) * (0.5, 0.8, 0.65, 1.0)[len(assigned) % 4]
@@ -126,7 +126,7 @@ def _facade(spec):
             t_here = float(t[ln - 1])
             if t_here not in first_attempt:
                 continue
-            nxt = [e for e in ends if d * (e - t_here) > 0]
+            nxt = [e for e in ends if d * (e - t_here) > 64 * 2.3e-16 * max(1.0, abs(e))]
             if not nxt:
                 continue
             remaining = abs(nxt[0] - t_here)
